@@ -37,12 +37,12 @@ pub fn all_flag_cfgs(offsets: &[u16], notify_ops: bool, legacy_too: bool) -> Vec
     let mut v = vec![];
     for &off in offsets {
         for bits in 0..8u8 {
-            let c = QCfg { indirect: bits & 1 != 0, event_idx: bits & 2 != 0, ap: bits & 4 != 0, legacy: false, start_off: off, notify_ops, abstract_idx: false, trace: false, reduced: false, preroll: 0, wait_pop: false, oom: false, bad_args: false };
+            let c = QCfg { indirect: bits & 1 != 0, event_idx: bits & 2 != 0, ap: bits & 4 != 0, legacy: false, start_off: off, notify_ops, abstract_idx: false, trace: false, reduced: false, preroll: 0, wait_pop: false, oom: false, bad_args: false, drop_op: false };
             v.push(c);
         }
         if legacy_too {
-            v.push(QCfg { indirect: false, event_idx: false, ap: false, legacy: true, start_off: off, notify_ops, abstract_idx: false, trace: false, reduced: false, preroll: 0, wait_pop: false, oom: false, bad_args: false });
-            v.push(QCfg { indirect: true, event_idx: true, ap: false, legacy: true, start_off: off, notify_ops, abstract_idx: false, trace: false, reduced: false, preroll: 0, wait_pop: false, oom: false, bad_args: false });
+            v.push(QCfg { indirect: false, event_idx: false, ap: false, legacy: true, start_off: off, notify_ops, abstract_idx: false, trace: false, reduced: false, preroll: 0, wait_pop: false, oom: false, bad_args: false, drop_op: false });
+            v.push(QCfg { indirect: true, event_idx: true, ap: false, legacy: true, start_off: off, notify_ops, abstract_idx: false, trace: false, reduced: false, preroll: 0, wait_pop: false, oom: false, bad_args: false, drop_op: false });
         }
     }
     v
@@ -184,7 +184,7 @@ pub fn run_linear(check: &mut Check, tier: Tier) {
             }
         }
     }
-    let base = QCfg { indirect: false, event_idx: false, ap: false, legacy: false, start_off: 0, notify_ops: false, abstract_idx: false, trace: false, reduced: false, preroll: 0, wait_pop: false, oom: false, bad_args: false };
+    let base = QCfg { indirect: false, event_idx: false, ap: false, legacy: false, start_off: 0, notify_ops: false, abstract_idx: false, trace: false, reduced: false, preroll: 0, wait_pop: false, oom: false, bad_args: false, drop_op: false };
     let ind = QCfg { indirect: true, event_idx: true, ..base };
     let long = if tier == Tier::Quick { 24_000 } else { 120_000 };
     let big = if tier == Tier::Quick { 150 } else { 1500 };
